@@ -274,6 +274,7 @@ def run_case(case, ctx):
     nev, pdevs = R16.drain_parse_deviations()
     mons = {'parses': 1, 'step_budget_guarded_parses': 1, 'parse_postcondition_evaluations': nev}
     leak = ctx['hyg'].check_restore()
+    mons['table_hygiene_checks'] = 1
     if leak:
         mons['table_leaks_restored'] = 1
     devs = judge(A, obs)
